@@ -17,4 +17,9 @@ mkdir -p ../bin
 GO=go
 OUT=../bin/elyssim
 if [ "${1:-}" = "go1.26" ]; then GO=go1.26.8; OUT=../bin/elyssim126; fi
+if [ "${1:-}" = "fakeclock" ]; then
+  # the fake-wall-clock replica of C19: test binary of this package built by the newer toolchain
+  # (testing/synctest), see sim/fakeclock_test.go
+  exec go1.26.8 test -c -o ../bin/elyssim-fakeclock .
+fi
 $GO build -o "$OUT" . 
